@@ -1,5 +1,6 @@
 import Goyang.Lemmas.LoadOrderFind
 import Goyang.Lemmas.AugmentModel
+import Goyang.Lemmas.Rounds
 /-
 Load-order independence (C05), part 5: linking and the augment stage commute with the renaming
 of module identities.  Core Lean only.
@@ -376,12 +377,36 @@ theorem leftover_rel (left : List Nat) : ∀ (s₁ s₂ : PState) (n : Nat), PRe
     rw [h2]
     exact ih _ _ _ h1
 
+/-- The two runs agree on whether a loop applied anything. -/
+theorem loopCount_rel (fuel : Nat) (mods : Array Nat) (s₁ s₂ : PState) (hs : PRel σ s₁ s₂) :
+    Rounds.loopCount r₁ fuel mods s₁ = 0 ↔ Rounds.loopCount r₂ fuel (mods.map σ) s₂ = 0 := by
+  rw [Rounds.loopCount_eq_zero, Rounds.loopCount_eq_zero]
+  have he : (mods.map σ).isEmpty = mods.isEmpty := by
+    simp only [Array.isEmpty, Array.size_map]
+  have hsz : (mods.map σ).size = mods.size := by simp
+  rw [he, hsz, (augmentPass_rel h (mods.size + 1) mods 0 0 s₁ s₂ hs).2.1]
+
+/-- **The retry rounds on corresponding states.** -/
+theorem leftoverRounds_rel (fuel n : Nat) (mods : Array Nat) (s₁ s₂ : PState) (hs : PRel σ s₁ s₂) :
+    (leftoverRounds r₂ fuel n (mods.map σ) s₂).1 = (leftoverRounds r₁ fuel n mods s₁).1.map σ ∧
+    PRel σ (leftoverRounds r₁ fuel n mods s₁).2 (leftoverRounds r₂ fuel n (mods.map σ) s₂).2 :=
+  Rounds.rounds_rel r₁ r₂ (fun m₁ s₁ m₂ s₂ => m₂ = m₁.map σ ∧ PRel σ s₁ s₂)
+    (fun fuel m₁ s₁ m₂ s₂ hR => by
+      obtain ⟨rfl, hs⟩ := hR
+      exact augmentLoop_rel h fuel m₁ s₁ s₂ hs)
+    (fun fuel m₁ s₁ m₂ s₂ hR => by
+      obtain ⟨rfl, hs⟩ := hR
+      exact loopCount_rel h fuel m₁ s₁ s₂ hs)
+    (fun m₁ s₁ m₂ s₂ hR => ⟨hR.1, fixAll_rel hR.2⟩) fuel n mods s₁ (mods.map σ) s₂ ⟨rfl, hs⟩
+
 omit h in
+attribute [local irreducible] leftoverRounds in
 theorem augmentPhase_eq (reg : Registry) (order : List Nat) (fuel : Nat) (s : PState) :
     augmentPhase reg order fuel s =
       let r := augmentLoop reg fuel order.toArray s
-      let l := r.1.toList.foldl (fun (acc : PState × Nat) id =>
-        ((augmentTree reg id true acc.1).1, acc.2 + (augmentTree reg id true acc.1).2.1)) (fixAll r.2, 0)
+      let q := leftoverRounds reg fuel fuel r.1 (fixAll r.2)
+      let l := q.1.toList.foldl (fun (acc : PState × Nat) id =>
+        ((augmentTree reg id true acc.1).1, acc.2 + (augmentTree reg id true acc.1).2.1)) (q.2, 0)
       if l.2 > 0 then fixAll l.1 else l.1 := by
   unfold augmentPhase
   simp only [Array.foldl_toList]
@@ -394,8 +419,11 @@ theorem augmentPhase_rel (order : List Nat) (fuel : Nat) {s₁ s₂ : PState} (h
   simp only
   rw [← List.map_toArray]
   obtain ⟨h1, h2⟩ := augmentLoop_rel h fuel order.toArray s₁ s₂ hs
-  rw [h1, Array.toList_map]
-  obtain ⟨h3, h4⟩ := leftover_rel h (augmentLoop r₁ fuel order.toArray s₁).1.toList _ _ 0 (fixAll_rel h2)
+  rw [h1]
+  obtain ⟨h5, h6⟩ := leftoverRounds_rel h fuel fuel (augmentLoop r₁ fuel order.toArray s₁).1 _ _ (fixAll_rel h2)
+  rw [h5, Array.toList_map]
+  obtain ⟨h3, h4⟩ := leftover_rel h (leftoverRounds r₁ fuel fuel (augmentLoop r₁ fuel order.toArray s₁).1
+    (fixAll (augmentLoop r₁ fuel order.toArray s₁).2)).1.toList _ _ 0 h6
   rw [h4]
   split
   · exact fixAll_rel h3
